@@ -8,6 +8,26 @@ import snaxrun
 from framework import Prop
 
 
+def _fc07a_applied():
+    """fixes/FC07a (re-linking of pre-existing loop-carried states): the model variant of the FIXED pass is used when finding
+    DC07a is listed as fixed in known_findings.d/C07.json (DC07b is repaired by the same diff); C07_FIXES=none / C07_FIXES=FC07a
+    overrides, e.g. to check a tree without the fix."""
+    import json
+    import os
+    env = os.environ.get("C07_FIXES")
+    if env is not None:
+        return "FC07a" in [x.strip() for x in env.split(",")]
+    f = os.path.join(os.path.dirname(os.path.dirname(os.path.dirname(os.path.abspath(__file__)))), "known_findings.d", "C07.json")
+    try:
+        return any(e["id"] == "DC07a" and e.get("status") == "fixed" for e in json.load(open(f))["findings"])
+    except Exception:
+        return False
+
+
+FIXED = _fc07a_applied()
+al.FIXED = FIXED
+
+
 def trace_states(src):
     return snaxrun.run_passes(src, "accfg-trace-states")
 
@@ -80,12 +100,12 @@ class LinksMixin:
             return {"unmodelled": "evaluator cost"}
         # claim checked by the model's decidable link validation on the converted REAL IR (skipped in the class of DC07a)
         return {"P": cp.body, "L": cl.body, "infer": cl.real_inference(), "annot": ac.real_inference_at_points(cl),
-                "links_sound": None if pre else True}
+                "links_sound": None if pre and not FIXED else True}
 
     def links_requests(self, case, impl_out):
         if "P" not in impl_out:
             return []
-        reqs = [{"fn": "c07links.weave", "args": {"body": impl_out["P"]}}]
+        reqs = [{"fn": "c07links.weave", "args": {"body": impl_out["P"], "fixed": FIXED}}]
         if "L" in impl_out:
             reqs.append({"fn": "c07links.infer", "args": {"body": impl_out["L"]}})
         return reqs
@@ -112,9 +132,9 @@ class LinksMixin:
         i = i["ok"]
         out = {"P": impl_out["P"], "L": w["woven"], "infer": al.canon_states(w["infer"]),
                "annot": [sorted(x) if isinstance(x, list) else x for x in w["annot"]],
-               "links_sound": i["linksSound"] if w["plain"] else None}
-        if w["plain"] and not w["linksSound"]:
-            out["model_error"] = "soundChkB fails on weave p for a plain program (contradicts weave_links_agree_partial)"
+               "links_sound": i["linksSound"] if (w["plain"] or FIXED) else None}
+        if (w["plain"] or FIXED) and not w["linksSound"]:
+            out["model_error"] = "soundChkB fails on the woven program (contradicts weave_links_agree / _partial)"
         if not w.get("ranked", True) or not i.get("ranked", True):
             # hypothesis of inferL_fuel_suffices (decidable, evaluated on the woven and on the converted real program)
             out["model_error"] = "owner table is not ranked / closed: fuelOf is not known to suffice"
